@@ -16,10 +16,10 @@ CONSTANTS MaxCmds,    \* global command budget (top-level + inside actions)
           Bump        \* TRUE: the spin nudge of start() may move the clock (C29 variant)
 
 VARIABLES clock, queue, cancelled, mode, target, enabled, cur, left, budget, nextId,
-          top, body, ran, clocks, due, errs, amb
+          top, body, ran, clocks, due, errs, amb, bumps
 
 vars == <<clock, queue, cancelled, mode, target, enabled, cur, left, budget, nextId,
-          top, body, ran, clocks, due, errs, amb>>
+          top, body, ran, clocks, due, errs, amb, bumps>>
 
 Max(a, b) == IF a >= b THEN a ELSE b
 Cmd(c, a, b) == [c |-> c, a |-> a, b |-> b]
@@ -27,7 +27,7 @@ Cmd(c, a, b) == [c |-> c, a |-> a, b |-> b]
 Init == /\ clock = 0 /\ queue = <<>> /\ cancelled = {} /\ mode = "top" /\ target = 0
         /\ enabled = FALSE /\ cur = 0 /\ left = 0 /\ budget = MaxCmds /\ nextId = 1
         /\ top = <<>> /\ body = [i \in 1..MaxItems |-> <<>>] /\ ran = <<>> /\ clocks = <<>>
-        /\ due = [i \in 1..MaxItems |-> 0] /\ errs = <<>> /\ amb = FALSE
+        /\ due = [i \in 1..MaxItems |-> 0] /\ errs = <<>> /\ amb = FALSE /\ bumps = 0
 
 AtTop == mode = "top" /\ cur = 0
 
@@ -52,17 +52,17 @@ TSched == \E k \in Kinds :
             /\ AtTop /\ budget > 0 /\ Enqueue(k[1], k[2])
             /\ top' = Append(top, Cmd("sched_" \o k[1], k[2], nextId))
             /\ clocks' = Append(clocks, <<clock, Len(ran)>>) /\ budget' = budget - 1
-            /\ UNCHANGED <<clock, cancelled, mode, target, enabled, cur, left, body, ran, errs, amb>>
+            /\ UNCHANGED <<clock, cancelled, mode, target, enabled, cur, left, body, ran, errs, amb, bumps>>
 
 TCancel == \E j \in 1..(nextId - 1) :
             /\ AtTop /\ budget > 0 /\ cancelled' = cancelled \cup {j}
             /\ top' = Append(top, Cmd("cancel", j, 0))
             /\ clocks' = Append(clocks, <<clock, Len(ran)>>) /\ budget' = budget - 1
-            /\ UNCHANGED <<clock, queue, mode, target, enabled, cur, left, nextId, body, ran, due, errs, amb>>
+            /\ UNCHANGED <<clock, queue, mode, target, enabled, cur, left, nextId, body, ran, due, errs, amb, bumps>>
 
 TStart == /\ AtTop /\ budget > 0 /\ mode' = "start" /\ enabled' = TRUE
           /\ top' = Append(top, Cmd("start", 0, 0)) /\ budget' = budget - 1
-          /\ UNCHANGED <<clock, queue, cancelled, target, cur, left, nextId, body, ran, clocks, due, errs, amb>>
+          /\ UNCHANGED <<clock, queue, cancelled, target, cur, left, nextId, body, ran, clocks, due, errs, amb, bumps>>
 
 \* advance_to(t): t < clock raises; otherwise run everything due at or before t, end at t
 TAdvTo == \E t \in AdvT :
@@ -73,20 +73,20 @@ TAdvTo == \E t \in AdvT :
                     /\ UNCHANGED <<mode, target, enabled>>
                ELSE /\ top' = Append(top, Cmd("advance_to", t, 0))
                     /\ mode' = "adv" /\ target' = t /\ enabled' = TRUE
-                    /\ UNCHANGED <<clocks, errs, amb>>
-            /\ UNCHANGED <<clock, queue, cancelled, cur, left, nextId, body, ran, due, amb>>
+                    /\ UNCHANGED <<clocks, errs, amb, bumps>>
+            /\ UNCHANGED <<clock, queue, cancelled, cur, left, nextId, body, ran, due, amb, bumps>>
 
 TAdvBy == \E d \in AdvD :
             /\ AtTop /\ budget > 0 /\ budget' = budget - 1
             /\ top' = Append(top, Cmd("advance_by", d, 0))
             /\ mode' = "adv" /\ target' = clock + d /\ enabled' = TRUE
-            /\ UNCHANGED <<clock, queue, cancelled, cur, left, nextId, body, ran, clocks, due, errs, amb>>
+            /\ UNCHANGED <<clock, queue, cancelled, cur, left, nextId, body, ran, clocks, due, errs, amb, bumps>>
 
 TSleep == \E d \in AdvD :
             /\ AtTop /\ budget > 0 /\ budget' = budget - 1
             /\ top' = Append(top, Cmd("sleep", d, 0))
             /\ clock' = clock + d /\ clocks' = Append(clocks, <<clock + d, Len(ran)>>)
-            /\ UNCHANGED <<queue, cancelled, mode, target, enabled, cur, left, nextId, body, ran, due, errs, amb>>
+            /\ UNCHANGED <<queue, cancelled, mode, target, enabled, cur, left, nextId, body, ran, due, errs, amb, bumps>>
 
 (* ---- the run loop of start() / advance_to() ----------------------------------------- *)
 LoopPick == /\ mode \in {"start", "adv"} /\ cur = 0 /\ enabled /\ Eligible # {}
@@ -100,18 +100,18 @@ LoopPick == /\ mode \in {"start", "adv"} /\ cur = 0 /\ enabled /\ Eligible # {}
                   ELSE /\ clock' = Max(clock, due[id])
                        /\ ran' = Append(ran, <<id, Max(clock, due[id])>>)
                        /\ cur' = id /\ left' = MaxBody /\ UNCHANGED amb
-            /\ UNCHANGED <<cancelled, mode, target, enabled, budget, nextId, top, body, clocks, due, errs>>
+            /\ UNCHANGED <<cancelled, mode, target, enabled, budget, nextId, top, body, clocks, due, errs, bumps>>
 
 LoopExit == /\ mode \in {"start", "adv"} /\ cur = 0 /\ (~enabled \/ Eligible = {})
             /\ mode' = "top" /\ enabled' = FALSE
             /\ clock' = IF mode = "adv" THEN Max(clock, target) ELSE clock
             /\ clocks' = Append(clocks, <<clock', Len(ran)>>)
-            /\ UNCHANGED <<queue, cancelled, target, cur, left, budget, nextId, top, body, ran, due, errs, amb>>
+            /\ UNCHANGED <<queue, cancelled, target, cur, left, budget, nextId, top, body, ran, due, errs, amb, bumps>>
 
 \* the spin nudge: start() may move the clock forward between two same-instant actions
 SpinBump == /\ Bump /\ mode = "start" /\ cur = 0 /\ enabled /\ Eligible # {}
-            /\ due[queue[NextPos]] <= clock /\ Len(ran) > 0 /\ clock < 3
-            /\ clock' = clock + 1
+            /\ due[queue[NextPos]] <= clock /\ Len(ran) > 0 /\ bumps < MaxItems
+            /\ clock' = clock + 1 /\ bumps' = bumps + 1
             /\ UNCHANGED <<queue, cancelled, mode, target, enabled, cur, left, budget, nextId, top, body, ran, clocks, due, errs, amb>>
 
 (* ---- what a running action does ----------------------------------------------------- *)
@@ -119,24 +119,31 @@ ASched == \E k \in Kinds :
             /\ cur # 0 /\ left > 0 /\ budget > 0 /\ Enqueue(k[1], k[2])
             /\ body' = [body EXCEPT ![cur] = Append(@, Cmd("sched_" \o k[1], k[2], nextId))]
             /\ left' = left - 1 /\ budget' = budget - 1
-            /\ UNCHANGED <<clock, cancelled, mode, target, enabled, cur, top, ran, clocks, errs, amb>>
+            /\ UNCHANGED <<clock, cancelled, mode, target, enabled, cur, top, ran, clocks, errs, amb, bumps>>
 
 ACancel == \E j \in 1..(nextId - 1) :
             /\ cur # 0 /\ left > 0 /\ budget > 0 /\ cancelled' = cancelled \cup {j}
             /\ body' = [body EXCEPT ![cur] = Append(@, Cmd("cancel", j, 0))]
             /\ left' = left - 1 /\ budget' = budget - 1
-            /\ UNCHANGED <<clock, queue, mode, target, enabled, cur, nextId, top, ran, clocks, due, errs, amb>>
+            /\ UNCHANGED <<clock, queue, mode, target, enabled, cur, nextId, top, ran, clocks, due, errs, amb, bumps>>
 
 AStop == /\ cur # 0 /\ left > 0 /\ budget > 0 /\ enabled /\ enabled' = FALSE
          /\ body' = [body EXCEPT ![cur] = Append(@, Cmd("stop", 0, 0))]
          /\ left' = left - 1 /\ budget' = budget - 1
-         /\ UNCHANGED <<clock, queue, cancelled, mode, target, cur, nextId, top, ran, clocks, due, errs, amb>>
+         /\ UNCHANGED <<clock, queue, cancelled, mode, target, cur, nextId, top, ran, clocks, due, errs, amb, bumps>>
+
+\* an action may also call sleep(): the clock moves, nothing runs
+ASleep == \E d \in AdvD :
+            /\ cur # 0 /\ left > 0 /\ budget > 0 /\ d > 0 /\ clock' = clock + d
+            /\ body' = [body EXCEPT ![cur] = Append(@, Cmd("sleep", d, 0))]
+            /\ left' = left - 1 /\ budget' = budget - 1
+            /\ UNCHANGED <<queue, cancelled, mode, target, enabled, cur, nextId, top, ran, clocks, due, errs, amb, bumps>>
 
 AEnd == /\ cur # 0 /\ cur' = 0 /\ left' = 0
-        /\ UNCHANGED <<clock, queue, cancelled, mode, target, enabled, budget, nextId, top, body, ran, clocks, due, errs, amb>>
+        /\ UNCHANGED <<clock, queue, cancelled, mode, target, enabled, budget, nextId, top, body, ran, clocks, due, errs, amb, bumps>>
 
 Next == TSched \/ TCancel \/ TStart \/ TAdvTo \/ TAdvBy \/ TSleep
-        \/ LoopPick \/ LoopExit \/ SpinBump \/ ASched \/ ACancel \/ AStop \/ AEnd
+        \/ LoopPick \/ LoopExit \/ SpinBump \/ ASched \/ ACancel \/ AStop \/ ASleep \/ AEnd
 
 Spec == Init /\ [][Next]_vars /\ WF_vars(LoopPick \/ LoopExit \/ AEnd)
 
@@ -155,7 +162,8 @@ RunOnce == \A i, j \in 1..Len(ran) : i # j => ran[i][1] # ran[j][1]
 \* action stopped the scheduler) nothing due at or before it is left that is not cancelled
 AdvanceComplete == (AtTop /\ Len(top) > 0 /\ top[Len(top)].c \in {"advance_to", "advance_by"}
                     /\ (errs = <<>> \/ errs[Len(errs)] # Len(top)))
-                   => /\ clock = target
+                   => /\ clock >= target   \* the clock never moves backwards, even if an action slept past the target
+                      /\ (\A i \in 1..MaxItems : \A j \in 1..Len(body[i]) : body[i][j].c # "sleep") => clock = target
                       /\ (\A i \in 1..MaxItems : \A j \in 1..Len(body[i]) : body[i][j].c # "stop")
                             => \A p \in 1..Len(queue) : due[queue[p]] > target
 \* a drained start() leaves an empty queue unless stopped
